@@ -354,9 +354,9 @@ def run(ctx):
     items = []
     for o in OPTS:
         for l in LAYOUTS:
-            items.append((o, l, 3 if o in ("GradientDescent", "Momentum", "NesterovMomentum") else (1 if o == "Adam" and ctx.tier == "quick" else 2), False))
-        items.append((o, "x[2]", 2, True))
-        items.append((o, "data[2], w[2]", 2, True))
+            items.append((o, l, 3 if o in ("GradientDescent", "Momentum", "NesterovMomentum") else (1 if o == "Adam" else 2), False))  # Adam over 2 steps: z3 answers unknown (nested square roots) - outside
+        items.append((o, "x[2]", 1 if o == "Adam" else 2, True))
+        items.append((o, "data[2], w[2]", 1 if o == "Adam" else 2, True))
     items += [("roto", "rotosolve", f, g) for f in ROTO_FREQS for g in (False, True)] + [("roto", "rotoselect", 1.0, False)]
     if ctx.only:
         items = [it for it in items if ctx.only in f"{it[0]} {it[1]}"]
